@@ -364,7 +364,8 @@ Fixpoint check_tsteps (ts : tst) (ops : list top) (obs : list out) : list string
             else
               let '(s2', sr2) := spec_step s1' (Chtimes p t) in
               if out_match sr2 (inst_ok r) && st_eqb (flat ts1) s2' then []
-              else if negb (st_eqb (fst (model_step TarFS s (MkdirAll p perm))) s1')
+              else if negb (st_eqb (fst (model_step TarFS s (MkdirAll p perm))) s1' &&
+                            out_match sr (snd (model_step TarFS s (MkdirAll p perm))))
                    then [String.append "viol:" (viol_tag TarFS s (MkdirAll p perm) sr (inst_ok r))]
                    else [String.append "viol:" (viol_tag TarFS s1' (Chtimes p t) sr2 (inst_ok r))]
         end in
